@@ -225,6 +225,15 @@ class BatchEngine(Engine):
             def violate(cls, detail, sig=None):
                 return orig(cls, detail, sig=sig or 'case-colliding-paths')
             run.violate = violate
+        if any(P['recursive'] or P.get('prefix') for P in scenario['proj']['procs'].values()):
+            # full-parse enrichment of projects with recursive routines: identified by its message
+            orig2 = run.violate
+
+            def violate2(cls, detail, sig=None):
+                if sig is None and 'Missing type information for variable symbol' in detail:
+                    sig = 'enrich-missing-type-information:project-with-recursive-routine'
+                return orig2(cls, detail, sig=sig)
+            run.violate = violate2
         root = run.scratch / 'src'
         root.mkdir()
         write_project(scenario['proj'], root)
